@@ -2,6 +2,7 @@ package checks
 
 import (
 	"fmt"
+	"path/filepath"
 	"strings"
 
 	"verif/internal/core"
@@ -150,7 +151,9 @@ func c19Space(L int) *core.Space {
 	name := fmt.Sprintf("files<=%d-top-level-statements", L)
 	return &core.Space{
 		Name: name, N: n, Chunk: 300, RecycleEvery: 30,
-		Describe: func(i int64) interface{} { return map[string]interface{}{"m.lua": at(i), "o.lua": "function og() end\nov = 1\n"} },
+		Describe: func(i int64) interface{} {
+			return map[string]interface{}{"m.lua": at(i), "o.lua": "function og() end\nov = 1\n"}
+		},
 		Run: func(i int64, r *core.Result) {
 			text := at(i)
 			r.Evaluated++
@@ -323,14 +326,14 @@ func init() {
 		Technique: "bounded-exhaustive file enumeration (all sequences of top-level statements of a declaration alphabet up to the length bound) on the real server against the declaration list of the reference parser",
 		Rule: "files: every sequence of <=2 (quick) / <=3 (thorough) statements from 23 declaration forms (locals, globals, functions, t.f / t:m / nested-table functions, annotation class, nested blocks); a second file declares og, ov. " +
 			"Every top-level local, global and function (members included) must have a documentSymbol entry (children searched) with a range inside the file that contains the declaring identifier and a name containing it; workspace/symbol with the exact name of every global/function must return an entry located at the declaration. " +
-			"states = declarations judged; non-trivial = files with >=2 declarations",
+			"a folder added later through workspace/didChangeWorkspaceFolders (6 relations between its path and the root's: unrelated, string prefix either way, same base name, prefix of an inner segment) must answer for its unopened files whatever a single-root workspace answers for them. states = declarations judged; non-trivial = files with >=2 declarations",
 		Assumptions: []string{"an outline entry matches a declaration if its range contains the declaring identifier and its name contains the identifier", "locals are not queried through workspace/symbol"},
 		Flavour:     "prod+overlay", QuickBudgetS: 120, ThoroughBudgetS: 900,
 		Spaces: func(tier string) []*core.Space {
 			if tier == "thorough" {
-				return []*core.Space{c19Space(3), c19LargeSpace(), c19TwinSpace()}
+				return []*core.Space{c19Space(3), c19LargeSpace(), c19TwinSpace(), c19AddedFolderSpace()}
 			}
-			return []*core.Space{c19Space(2), c19LargeSpace(), c19TwinSpace()}
+			return []*core.Space{c19Space(2), c19LargeSpace(), c19TwinSpace(), c19AddedFolderSpace()}
 		},
 	})
 }
@@ -444,6 +447,121 @@ func c19TwinSpace() *core.Space {
 					r.Fail(name, i, sig, coreS, map[string]interface{}{"failure_core": coreS, "text_of_both_files": text, "query": d.query, "entries_at_the_declaration": hits})
 				} else {
 					r.Outcome("twins-answered-alike")
+				}
+			}
+		},
+	}
+}
+
+// declarations in a workspace folder that joins the workspace later (workspace/didChangeWorkspaceFolders): the files of
+// the added folder are never opened; a query by name must still answer at the declaration. The folder's path is related
+// to the root's in every way a path comparison can get wrong: unrelated sibling, sibling whose path is a string prefix of
+// the root's, sibling whose path has the root's as a string prefix, a sibling with the same name in another directory.
+var c19FolderPairs = [][2]string{
+	{"game", "tools"},            // unrelated sibling
+	{"game_server", "game"},      // the added path is a string prefix of the root's
+	{"game", "game_server"},      // the root's path is a string prefix of the added one
+	{"a/game", "b/game"},         // same base name elsewhere
+	{"game", "game.lua.d"},       // prefix + a name that looks like a file
+	{"deep/game/src", "deep/ga"}, // prefix of an inner segment
+}
+
+func c19AddedFolderSpace() *core.Space {
+	name := "declarations-in-a-workspace-folder-added-later"
+	np := int64(len(c19FolderPairs))
+	return &core.Space{
+		Name: name, N: int64(len(c19Stmts)) * np, Chunk: 20, RecycleEvery: 10,
+		Describe: func(i int64) interface{} {
+			pr := c19FolderPairs[i%np]
+			return map[string]interface{}{"root": pr[0], "added_folder": pr[1], pr[0] + "/m.lua": "local unrelated = 1\nprint(unrelated)\n", pr[1] + "/p.lua": c19Stmts[i/np] + "\n"}
+		},
+		Run: func(i int64, r *core.Result) {
+			pr := c19FolderPairs[i%np]
+			text := c19Stmts[i/np] + "\n"
+			r.Evaluated++
+			p := luaref.Parse(text)
+			if p.Err != nil {
+				return
+			}
+			r.Nontrivial++
+			b := luaref.Bind(p.Chunk)
+			// reference view: the same p.lua as an unopened file of a plain single-root workspace (that server is closed
+			// before the next one starts). What is not found there either belongs to the first space of this check.
+			decls := c19Decls(text, p.Chunk, b)
+			inRoot := map[int]bool{}
+			{
+				ref := drv.NewWorkspace(map[string]string{"m.lua": "local unrelated = 1\nprint(unrelated)\n", "p.lua": text})
+				s0, err := drv.Start(ref, drv.Options{})
+				if err != nil {
+					drv.RemoveWorkspace(ref)
+					r.Fail(name, i, "server-start-failed", text, map[string]interface{}{"error": err.Error()})
+					return
+				}
+				s0.Open("m.lua", "local unrelated = 1\nprint(unrelated)\n")
+				for k, d := range decls {
+					if d.query == "" {
+						continue
+					}
+					ws, err := s0.WsSymbols(d.query)
+					r.Transitions++
+					if err != nil {
+						continue
+					}
+					dr := rng(text, d.sp)
+					for _, w := range ws {
+						if s0.Rel(w.Location.URI) == "p.lua" && rangeContains(w.Location.Range, dr) {
+							inRoot[k] = true
+						}
+					}
+				}
+				s0.Close()
+				drv.RemoveWorkspace(ref)
+			}
+			base := drv.NewWorkspace(map[string]string{pr[0] + "/m.lua": "local unrelated = 1\nprint(unrelated)\n", pr[1] + "/p.lua": text})
+			defer drv.RemoveWorkspace(base)
+			root := filepath.Join(base, pr[0])
+			added := filepath.Join(base, pr[1])
+			s, err := drv.Start(root, drv.Options{})
+			if err != nil {
+				r.Fail(name, i, "server-start-failed", text, map[string]interface{}{"error": err.Error()})
+				return
+			}
+			defer s.Close()
+			s.Open("m.lua", "local unrelated = 1\nprint(unrelated)\n")
+			ev := map[string]interface{}{"event": map[string]interface{}{"added": []interface{}{map[string]interface{}{"uri": "file://" + added, "name": filepath.Base(added)}}, "removed": []interface{}{}}}
+			if err := s.Notify("workspace/didChangeWorkspaceFolders", ev); err != nil {
+				r.Fail(name, i, "workspace-folder-notification-failed", pr[0]+" + "+pr[1], map[string]interface{}{"error": err.Error()})
+				return
+			}
+			r.Transitions++
+			for k, d := range decls {
+				if d.query == "" {
+					continue
+				}
+				ws, err := s.WsSymbols(d.query)
+				r.Transitions++
+				if err != nil {
+					continue
+				}
+				r.States++
+				dr := rng(text, d.sp)
+				hit := !inRoot[k]
+				if hit {
+					r.Outcome("not-found-in-a-single-root-workspace-either")
+					continue
+				}
+				for _, w := range ws {
+					if strings.TrimPrefix(string(w.Location.URI), "file://") == filepath.Join(added, "p.lua") && rangeContains(w.Location.Range, dr) {
+						hit = true
+					}
+				}
+				if !hit {
+					sig := "declaration-found-in-a-single-root-workspace-but-not-in-an-added-folder:" + d.kind
+					coreS := fmt.Sprintf("%s | root %s + folder %s | %s | in %q", sig, pr[0], pr[1], lineAt(text, dr), text)
+					r.Outcome(sig)
+					r.Fail(name, i, sig, coreS, map[string]interface{}{"failure_core": coreS, "root": pr[0], "added_folder": pr[1], "p.lua": text, "query": d.query, "answer": ws})
+				} else {
+					r.Outcome("found-in-the-added-folder")
 				}
 			}
 		},
